@@ -197,7 +197,14 @@ struct Engine
     // per-operation state for boundary checks
     size_t lenA_prev = 0; // kernel length of the active file at the start of the operation
     size_t written_this_op = 0; // bytes passed to write(2) on the active path in this operation
-    std::string cur_X; // rotated name created in this operation (plain), if any
+    struct OpRot
+    {
+        std::string name, content;
+        int64_t mtime;
+        bool by_copy = false; // made by Qt's copy fall-back: the content arrives after the name
+    };
+    std::vector<OpRot> op_rot; // every rotated name the active file was renamed to in this operation, in order
+    std::string cur_X; // the last of them (plain name), if any
     std::string cur_X_expected;
     int64_t cur_X_mtime = 0;
     bool active_tainted = false; // holds records of an earlier day that were flushed on a later day
@@ -214,6 +221,7 @@ struct Engine
         size_t kP;
         std::string cur_X, cur_X_expected;
         std::vector<int> pending;
+        std::vector<OpRot> op_rot;
         int64_t wall;
     };
     std::vector<Crash> crashes;
@@ -575,20 +583,56 @@ struct Engine
                 std::vector<int> before = pending;
                 if (!before.empty() && recs[before.back()].op == cur_op)
                     before.pop_back();
-                cur_X_expected = rec_stream(before);
+                size_t consumed = 0; // bytes that earlier rotations of this operation already took
+                for (auto &r0 : op_rot)
+                    consumed += r0.content.size();
+                std::string ref = rec_stream(before);
+                cur_X_expected = consumed <= ref.size() ? ref.substr(consumed) : std::string();
                 {
                     std::string now;
                     if (logdir::read_file(logdir_path + "/" + name, now)) {
                         std::string all = rec_stream(pending);
-                        if (all.compare(0, now.size(), now) == 0 && now.size() <= all.size())
+                        if (consumed <= all.size() && all.compare(consumed, now.size(), now) == 0
+                            && consumed + now.size() <= all.size())
                             cur_X_expected = now;
                     }
                 }
                 cur_X_mtime = logdir::mtime_ns(logdir_path + "/" + name);
+                op_rot.push_back({ name, cur_X_expected, cur_X_mtime });
                 if (is("C06") && P.N == 1 && !fault_mode)
                     fail("rotated-with-n1", "a rotated file (" + name + ") was produced although the file-count limit is 1");
             }
         }
+        // a rotation done by copy (Qt's fall-back when the rename fails): the source is removed after the
+        // copy; whatever unknown rotated name exists at that moment is this operation's rotated file
+        if (b.call == sim::FS_UNLINK && b.path && active_rel == b.path) {
+            for (auto &n : logdir::list_files(logdir_path)) {
+                logdir::RotName rn = logdir::parse_rotated(n, stem, suffix);
+                if (!rn.ok || rn.gz || foreign.count(n))
+                    continue;
+                bool known = false;
+                for (auto &sg : segs)
+                    if (sg.present && sg.plain_name == n)
+                        known = true;
+                for (auto &r0 : op_rot)
+                    if (r0.name == n)
+                        known = true;
+                if (known)
+                    continue;
+                std::string now;
+                if (logdir::read_file(logdir_path + "/" + n, now)) {
+                    OpRot r0 { n, now, logdir::mtime_ns(logdir_path + "/" + n) };
+                    r0.by_copy = true;
+                    op_rot.push_back(r0);
+                }
+            }
+        }
+        for (auto &r0 : op_rot)
+            if (r0.by_copy) {
+                std::string now;
+                if (logdir::read_file(logdir_path + "/" + r0.name, now) && now.size() > r0.content.size())
+                    r0.content = now;
+            }
         if (!cur_X.empty() && (is("C08") || (is("C10") && !fault_mode)))
             check_ordering_clause(b);
         if (take_snapshots)
@@ -646,6 +690,7 @@ struct Engine
         c.cur_X = cur_X;
         c.cur_X_expected = cur_X_expected;
         c.pending = pending;
+        c.op_rot = op_rot;
         c.wall = sim::wall_now();
         crashes.push_back(std::move(c));
     }
@@ -696,58 +741,8 @@ struct Engine
             }
         }
 
-        // 1b. the file rotated in this very operation is already gone again
-        if (!cur_X.empty() && !rot.count(cur_X) && !fault_mode) {
-            std::vector<int> keep;
-            {
-                // the records that did not go into the vanished file stay expected in the active file
-                size_t acc = 0, j = 0;
-                while (j < pending.size() && acc < cur_X_expected.size()) {
-                    acc += recs[pending[j]].bytes.size() + 1;
-                    j++;
-                }
-                keep.assign(pending.begin() + j, pending.end());
-            }
-            rotations++;
-            removals++;
-            projh("rot-rm");
-            if (is("C05") && !retention)
-                fail("rotated-file-vanished",
-                     "the file just rotated to " + cur_X + " was deleted although no retention limit is in force");
-            if (is("C06") || is("C05")) {
-                if (P.N <= 0)
-                    fail("deleted-without-limit", "the file just rotated to " + cur_X + " was deleted with N=" + std::to_string(P.N));
-                for (auto &o : segs)
-                    if (o.present && rot.count(o.plain_name)) {
-                        bool tie = o.mtime == cur_X_mtime;
-                        fail("victim-not-oldest",
-                             "retention removed the file just rotated (" + cur_X + ") while the older " + o.plain_name
-                                     + " survives" + (tie ? " [file timestamps tie]" : ""),
-                             std::string("victim-not-oldest/") + (tie ? "mtime-tie" : "distinct-mtimes"));
-                        break;
-                    }
-            }
-            names_seen[cur_X].push_back(cur_X_expected);
-            pending = keep;
-        }
-
-        // 2. new rotated names take a prefix of the pending records
-        std::vector<std::string> fresh;
-        for (auto &kv : rot) {
-            bool known = false;
-            for (auto &s : segs)
-                if (s.present && s.plain_name == kv.first)
-                    known = true;
-            if (!known)
-                fresh.push_back(kv.first);
-        }
-        std::sort(fresh.begin(), fresh.end(), [&](const std::string &a, const std::string &b) {
-            auto &x = rot[a].rn, &y = rot[b].rn;
-            if (x.date != y.date)
-                return x.date < y.date;
-            return x.index < y.index;
-        });
-        for (auto &name : fresh) {
+        // creating the model segment of a rotated name that is present now (shared by 1b and 2)
+        auto make_segment = [&](const std::string &name) {
             RotObs &o = rot[name];
             rotations++;
             projh("rot");
@@ -856,7 +851,75 @@ struct Engine
                      "rotated file " + name + " holds " + std::to_string(s.content.size()) + " bytes in "
                              + std::to_string(s.recs.size()) + " records; limit is " + std::to_string(P.L));
             segs.push_back(s);
+        };
+
+        // 1b. rotations of this very operation, in order: a name that is already gone again took its records
+        // with it (retention at work, to be judged); one that is still there becomes a segment right here, so
+        // that the records are handed out in rotation order even if one operation rotated more than once
+        std::set<std::string> done_here;
+        {
+            for (auto &r : op_rot) {
+                if (rot.count(r.name)) {
+                    bool known = false;
+                    for (auto &sg : segs)
+                        if (sg.present && sg.plain_name == r.name)
+                            known = true;
+                    if (!known && !done_here.count(r.name)) {
+                        make_segment(r.name);
+                        done_here.insert(r.name);
+                    }
+                    continue;
+                }
+                // the records that went into the vanished file leave the model; the rest stays expected
+                size_t acc = 0, j = 0;
+                while (j < pending.size() && acc < r.content.size()) {
+                    acc += recs[pending[j]].bytes.size() + 1;
+                    j++;
+                }
+                std::vector<int> keep(pending.begin() + j, pending.end());
+                rotations++;
+                removals++;
+                projh("rot-rm");
+                if ((is("C05") || fault_mode) && !retention)
+                    fail("rotated-file-vanished",
+                         "the file just rotated to " + r.name + " was deleted although no retention limit is in force");
+                if ((is("C06") || is("C05")) && !fault_mode) {
+                    if (P.N <= 0)
+                        fail("deleted-without-limit", "the file just rotated to " + r.name + " was deleted with N=" + std::to_string(P.N));
+                    for (auto &o : segs)
+                        if (o.present && rot.count(o.plain_name) && !done_here.count(o.plain_name)) {
+                            bool tie = o.mtime == r.mtime;
+                            fail("victim-not-oldest",
+                                 "retention removed the file just rotated (" + r.name + ") while the older " + o.plain_name
+                                         + " survives" + (tie ? " [file timestamps tie]" : ""),
+                                 std::string("victim-not-oldest/") + (tie ? "mtime-tie" : "distinct-mtimes"));
+                            break;
+                        }
+                }
+                names_seen[r.name].push_back(r.content);
+                pending = keep;
+            }
         }
+
+        // 2. new rotated names take a prefix of the pending records
+        std::vector<std::string> fresh;
+        for (auto &kv : rot) {
+            bool known = false;
+            for (auto &s : segs)
+                if (s.present && s.plain_name == kv.first)
+                    known = true;
+            if (!known)
+                fresh.push_back(kv.first);
+        }
+        std::sort(fresh.begin(), fresh.end(), [&](const std::string &a, const std::string &b) {
+            auto &x = rot[a].rn, &y = rot[b].rn;
+            if (x.date != y.date)
+                return x.date < y.date;
+            return x.index < y.index;
+        });
+        for (auto &name : fresh)
+            if (!done_here.count(name))
+                make_segment(name);
         // a rotated name present both plain and compressed after a completed operation: a reader that
         // decompresses the compressed files reads those records twice
         if ((is("C05") || is("C08")) && !fault_mode)
@@ -949,6 +1012,7 @@ struct Engine
         lenA_prev = A.size();
         written_this_op = 0;
         cur_X.clear();
+        op_rot.clear();
         boundary_in_op = 0;
     }
 
@@ -1010,13 +1074,24 @@ struct Engine
         if (sink)
             sink->send(lmsg);
         if (!device_open()) {
-            // the device is closed: the record was refused, it never reached the file.  After an
-            // injected failure that is a legitimate outcome (the file could not be reopened); in a
-            // fault-free history nothing entitles the sink to drop a record
-            if (!fault_mode && (is("C05") || is("C06") || is("C07") || is("C09")))
-                fail("record-refused", "record r" + std::to_string(r.id) + " was dropped: the sink's file is closed although no failure was injected");
-            pending.pop_back();
-            refused++;
+            // the device is closed. Did the record reach a file before that (a rotation right after the
+            // write may have moved it away and then failed to reopen), or was it refused?
+            std::string have;
+            for (auto &r0 : op_rot)
+                have += r0.content;
+            std::string A;
+            logdir::read_file(active_abs, A);
+            have += A;
+            bool reached = have.size() >= rec_stream(pending).size();
+            if (!reached) {
+                // refused: it never reached the file. After an injected failure that is a legitimate
+                // outcome (the file could not be reopened); in a fault-free history nothing entitles
+                // the sink to drop a record
+                if (!fault_mode && (is("C05") || is("C06") || is("C07") || is("C09")))
+                    fail("record-refused", "record r" + std::to_string(r.id) + " was dropped: the sink's file is closed although no failure was injected");
+                pending.pop_back();
+                refused++;
+            }
         }
     }
 
@@ -1212,11 +1287,25 @@ bool crash_check_a(Engine &e, const Engine::Crash &c, std::string *why, std::str
     if (act)
         T += act->raw;
     std::string Pstream = e.rec_stream(c.pending);
+    size_t need_drop = 0;
+    if (retention) {
+        // rotated files made earlier in this very operation that the retention limit has already removed
+        // again took their (whole) records with them
+        std::string gone;
+        for (auto &r0 : c.op_rot)
+            if (!rot.count(r0.name))
+                gone += r0.content;
+        if (!gone.empty() && Pstream.compare(0, gone.size(), gone) == 0) {
+            Pstream = Pstream.substr(gone.size());
+            need_drop = gone.size();
+        }
+    }
     if (T.size() > Pstream.size() || Pstream.compare(0, T.size(), T) != 0) {
         *why = Engine::describe_mismatch("records recoverable after the crash", T, Pstream);
         return false;
     }
     size_t need = complete_len(e, c.pending, c.kP);
+    need = need > need_drop ? need - need_drop : 0;
     if (T.size() < need) {
         *why = "only " + std::to_string(T.size()) + " bytes of the current file's records are recoverable, but "
                 + std::to_string(need) + " bytes of whole records had reached the file";
